@@ -185,23 +185,31 @@ static std::string slurpSan(const std::string& prop, uint64_t seed, pid_t pid) {
 
 // Two invocations of the checks (say a quick and a thorough command started
 // at the same time) may reach the same (property, seed) and hence the same sim
-// root, whose path is an input of the run and must not vary. One of a fixed
-// set of lock files serialises them; a process holds at most one at a time.
+// root, whose path is an input of the run and must not vary. A lock file named
+// after the root serialises them.
 struct RootLock {
   int fd = -1;
-  explicit RootLock(const std::string& key) {
-    uint64_t h = 1469598103934665603ULL;
-    for (unsigned char c : key)
-      h = (h ^ c) * 1099511628211ULL;
-    std::string p =
-        "/dev/shm/oomd-verif/lock-" + std::to_string((unsigned)(h % 509));
-    fd = ::open(p.c_str(), O_RDWR | O_CREAT | O_CLOEXEC, 0666);
-    if (fd >= 0)
+  std::string path;
+  explicit RootLock(const std::string& key)
+      : path("/dev/shm/oomd-verif/lock-" + key) {
+    for (;;) {
+      fd = ::open(path.c_str(), O_RDWR | O_CREAT | O_CLOEXEC, 0666);
+      if (fd < 0)
+        return;
       while (flock(fd, LOCK_EX) != 0 && errno == EINTR) {
       }
+      // the previous holder removes the file before it lets go: make sure
+      // the lock we got is still the one the path names
+      struct stat a, b;
+      if (fstat(fd, &a) == 0 && ::stat(path.c_str(), &b) == 0 &&
+          a.st_ino == b.st_ino)
+        return;
+      ::close(fd);
+    }
   }
   ~RootLock() {
     if (fd >= 0) {
+      ::unlink(path.c_str());
       flock(fd, LOCK_UN);
       ::close(fd);
     }
